@@ -316,7 +316,7 @@ class Check:
                                                            or ["correspondence " + m["stream"] for m in self.corr_mismatch]),
                                       "proof_failures": self.proof_failures,
                                       "correspondence_mismatches": self.corr_mismatch}, "unproved")
-            what = "proof obligation" if self.proof_failures else "correspondence"
+            what = "proof obligation" if any(not f.startswith("correspondence") for f in self.proof_failures) else "correspondence"
             lines.append(f"VIOLATION property={self.prop} replay={path} ({what} no longer checks) no-failing-input-found")
             viol = 1
         n_obl = len(self.obligations)
